@@ -106,7 +106,7 @@ Section Clean.
       destruct (take_blob T hc t (n_targets n)) as [b t'] eqn:Etb.
       pose proof (C01Build.take_blob_fst T hc _ _ _ _ Etb) as Hfst.
       assert (clock_ok teqb w) as Hk by apply Hinv.
-      destruct (InvProofs.take_blob_ok T teqb hc _ _ _ _ _ Hk Ht Etb) as [Hb Ht'].
+      destruct (InvProofs.take_blob_ok T teqb hc teqb_spec _ _ _ _ _ Ht Etb) as [Hb Ht'].
       rewrite app_assoc in Hnd, Hdist.
       destruct (clean_targets_good F b w Pd Hinv Hb) as (w1 & Hct & Hch & Htb).
       + rewrite Hfst. eapply NoDup_app_l; eauto.
